@@ -34,7 +34,11 @@ theorem step_dinv {s : St} (h : DInv s) (hs : SInv s) (cfg : Cfg) (e : Ev) : DIn
     simp only [step]; split
     · exact h
     · exact joinAndSync_dinv (s := { s with started := true, startResult := none }) (dinv_irrelevant h rfl rfl rfl rfl rfl rfl) hri
-  | stop => simp only [step]; exact stopCall_dinv h hs cfg none true
+  | stop =>
+    simp only [step]
+    rcases userStop_cases cfg s with ⟨hu, _, _⟩ | hu <;> rw [hu]
+    · exact h
+    · exact stopCall_dinv h hs cfg none true
   | coordDone r =>
     simp only [step]; split
     · exact h
